@@ -269,12 +269,32 @@ pub struct InstructionGenerator {
     pub subprogram_info_repository: SubprogramInfoRepository,
     pub current_subprogram: ScopeName,
     pub linter_names: Names,
-    /// The FOR loops (identified by their position) whose body encloses
+    /// The FOR loops and SELECT CASE blocks (identified by their position) that enclose
     /// the statement that is currently being generated, outermost first.
-    pub for_path: Vec<Position>,
-    /// The FOR loops whose body encloses each label of the module or
+    pub for_path: Vec<(Position, Enclosing)>,
+    /// The FOR loops and SELECT CASE blocks that enclose each label of the module or
     /// subprogram that is currently being generated.
-    pub label_for_paths: HashMap<CaseInsensitiveString, Vec<Position>>,
+    pub label_for_paths: HashMap<CaseInsensitiveString, Vec<(Position, Enclosing)>>,
+}
+
+/// A construct that keeps something on a stack while its body runs:
+/// a jump out of the body must drop it.
+#[derive(Clone, Copy, Debug, PartialEq, Eq)]
+pub enum Enclosing {
+    /// The body of a FOR loop runs in its own register frame.
+    ForBody,
+    /// The value of the SELECT CASE expression stays on the value stack until END SELECT.
+    SelectCase,
+}
+
+impl Enclosing {
+    /// The instruction that drops what the construct keeps on the stack.
+    pub fn leave_instruction(&self) -> Instruction {
+        match self {
+            Self::ForBody => Instruction::PopRegisters,
+            Self::SelectCase => Instruction::PopValueStackIntoA,
+        }
+    }
 }
 
 impl InstructionGenerator {
@@ -291,19 +311,20 @@ impl InstructionGenerator {
     }
 
     /// Finds the labels of the given statements, together with the FOR
-    /// loops that enclose each one. A GOTO that leaves the body of a FOR
-    /// loop needs to know that, in order to drop the register frame of that body.
+    /// loops and SELECT CASE blocks that enclose each one. A GOTO that leaves the body of a FOR
+    /// loop needs to know that, in order to drop the register frame of that body
+    /// (and likewise the value a SELECT CASE keeps on the value stack).
     pub fn collect_label_for_paths(&mut self, statements: &Statements) {
         self.label_for_paths.clear();
         self.for_path.clear();
-        let mut path: Vec<Position> = vec![];
+        let mut path: Vec<(Position, Enclosing)> = vec![];
         Self::do_collect_label_for_paths(statements, &mut path, &mut self.label_for_paths);
     }
 
     fn do_collect_label_for_paths(
         statements: &Statements,
-        path: &mut Vec<Position>,
-        result: &mut HashMap<CaseInsensitiveString, Vec<Position>>,
+        path: &mut Vec<(Position, Enclosing)>,
+        result: &mut HashMap<CaseInsensitiveString, Vec<(Position, Enclosing)>>,
     ) {
         for Positioned { element, pos } in statements {
             match element {
@@ -311,7 +332,7 @@ impl InstructionGenerator {
                     result.insert(name.clone(), path.clone());
                 }
                 Statement::ForLoop(f) => {
-                    path.push(*pos);
+                    path.push((*pos, Enclosing::ForBody));
                     Self::do_collect_label_for_paths(&f.statements, path, result);
                     path.pop();
                 }
@@ -325,6 +346,7 @@ impl InstructionGenerator {
                     }
                 }
                 Statement::SelectCase(s) => {
+                    path.push((*pos, Enclosing::SelectCase));
                     for case_block in &s.case_blocks {
                         let (_, statements) = case_block.into();
                         Self::do_collect_label_for_paths(statements, path, result);
@@ -332,6 +354,7 @@ impl InstructionGenerator {
                     if let Some(else_block) = &s.else_block {
                         Self::do_collect_label_for_paths(else_block, path, result);
                     }
+                    path.pop();
                 }
                 Statement::While(w) => {
                     Self::do_collect_label_for_paths(&w.statements, path, result);
@@ -344,8 +367,9 @@ impl InstructionGenerator {
         }
     }
 
-    /// The number of FOR loop bodies that a GOTO to the given label leaves.
-    pub fn for_bodies_left_by_goto(&self, label: &CaseInsensitiveString) -> usize {
+    /// The FOR loop bodies and SELECT CASE blocks that a GOTO to the given label leaves,
+    /// innermost first.
+    pub fn constructs_left_by_goto(&self, label: &CaseInsensitiveString) -> Vec<Enclosing> {
         match self.label_for_paths.get(label) {
             Some(label_path) => {
                 let common = self
@@ -354,10 +378,14 @@ impl InstructionGenerator {
                     .zip(label_path.iter())
                     .take_while(|(a, b)| a == b)
                     .count();
-                self.for_path.len() - common
+                self.for_path[common..]
+                    .iter()
+                    .rev()
+                    .map(|(_, enclosing)| *enclosing)
+                    .collect()
             }
             // the label is not in this module or subprogram
-            None => 0,
+            None => vec![],
         }
     }
 
